@@ -205,6 +205,16 @@ func lifetimeInMonths(cert *x509.Certificate) int {
 	return lifetimeInMonths
 }
 
+// lifetimeExceedsMonths reports whether the cert lifetime is longer than the
+// given number of months (a started further month counts).
+func lifetimeExceedsMonths(cert *x509.Certificate, months int) bool {
+	m := lifetimeInMonths(cert)
+	if m != months {
+		return m > months
+	}
+	return cert.NotAfter.Day() != cert.NotBefore.Day()
+}
+
 // GroupSet is set of Log-group names.
 type GroupSet map[string]bool
 
